@@ -133,3 +133,13 @@ Definition c26_chk (avail : bool) (p : prog) (e : option (list (list val) -> lis
                (if avail then forallb (N.eqb 1) impl_obs else count_from 1 impl_obs) &&
                outs_eqb ordered impl_outs (expect_outs e h (length impl_outs))
            end).
+
+(* ------------------------------------------------------------------ C23 *)
+
+(* bit0 = implementation differs from the model run on the real partition; bit1 = implementation
+   differs from the denotation of the flat graph (every operator applied once per tick, in
+   topological order, to the complete lists produced for it in that tick) *)
+Definition c23_chk (avail : bool) (p flat : prog) (ordered : list bool) (h : list (list (list val)))
+           (impl_outs : list (list val)) (impl_obs : list N) : N :=
+  verdict (run_agree avail p (map ext_of h) ordered impl_outs impl_obs)
+          (run_agree avail flat (map ext_of h) ordered impl_outs impl_obs).
